@@ -228,8 +228,11 @@ func (run *Run) Decide(kf *Findings) *Outcome {
 	out.Errors = append(out.Errors, run.Errors...)
 	for _, r := range run.Results {
 		out.Errors = append(out.Errors, r.Errors...)
-		if n := len(r.Obligations); n < r.MinInstances {
-			out.Errors = append(out.Errors, fmt.Sprintf("%s: matched %d instances, fewer than the %d confirmed by hand (a rule must not pass vacuously)", r.ID, n, r.MinInstances))
+		// The count confirmed by hand guards against a rule that has silently stopped matching
+		// (a collapse to nothing or to a fraction); it is not a census. A refactoring that merges
+		// two sites into one must not break the check, so the floor is half the confirmed count.
+		if n, floor := len(r.Obligations), (r.MinInstances+1)/2; n < floor {
+			out.Errors = append(out.Errors, fmt.Sprintf("%s: matched %d instances, fewer than half of the %d confirmed by hand (a rule must not pass vacuously)", r.ID, n, r.MinInstances))
 		}
 		for _, o := range r.Obligations {
 			switch o.Status {
